@@ -1,4 +1,4 @@
-// U36 hexane bool column loader -- rust/hexane/src/bool.rs::BoolLoadIter::{new, cut_slab, try_next_run}   (engine V)
+// U36 hexane bool column loader -- rust/hexane/src/bool.rs::BoolLoadIter::{new, cut_slab, try_next_run, finalize}, BoolEncoding::fill   (engine V)
 //
 // C35 / C15: the streaming loader of a boolean column (alternating run counts, UNTRUSTED bytes), for ANY codec that
 // satisfies the (assumed) `read_count` contract and any `max_segments`: one step returns a run, the end or an error
@@ -113,6 +113,26 @@ impl<'a, C: Codec> BoolLoadIter<'a, C> {
             decreases self.data.len() - self.pos,
 //@   before /let \(cb, count\) = /
             proof { C::dec_bounds(self.data@.subrange(self.pos as int, self.data.len() as int)); }
+//@ end
+
+//@ fn rust/hexane/src/bool.rs | impl<'a, C: Codec> BoolLoadIter<'a, C> | finalize
+//@   ret r
+//@   subst /finalize\(mut self\)/ => finalize(self)
+//@   subst /std::mem::take\(&mut self\.slabs\)/ => self.slabs
+//@   subst /data\[slab_start\.\.pos\]\.to_vec\(\)/ => vf_range_to_vec(data, slab_start, pos)
+//@   spec
+        // the drain that every plain `Column::<bool>::load` goes through: total on the rest of the (untrusted) input --
+        // no read outside it, no overflow on any count, termination -- and it keeps cutting on even run counts
+        requires self.wf(),
+        ensures r matches Ok(slabs) ==> slabs@.len() >= self.slabs@.len(),
+//@   loop 1
+            invariant slab_start <= pos <= data.len(), run_index <= pos, data == self.data,
+                target_segments >= 2 && target_segments % 2 == 0, slab_segs < target_segments,
+                slab_segs % 2 == run_index % 2, slab_segs <= run_index,
+                slabs@.len() >= self.slabs@.len(),
+            decreases data.len() - pos,
+//@   before /let \(cb, count\) = /
+            proof { C::dec_bounds(data@.subrange(pos as int, data.len() as int)); }
 //@ end
 }
 
